@@ -2183,6 +2183,7 @@ def run(res, tier):
     rule_recursion(res, cx)
     rule_cover(res, cx)
     rule_line_count(res, cx)
+    rule_expand_total(res, cx)
     res.count("functions", len(cx.closure))
     cx.und.finish(res)
     res.explanation = (
@@ -2201,6 +2202,87 @@ def run(res, tier):
     res.assumptions = ["token lines are >= 1, so `line or self.peek().line` never evaluates peek() when line= is passed",
                        "dict tables are never shrunk between a membership test and the lookup (no del/pop/clear in the closure: checked)",
                        "dataclass field annotations in mjcf_schema.py describe the values stored (name-based typing)"]
+
+
+# ============================================================================ R-EXPAND-TOTAL
+_GROW = {"add", "append", "update", "extend", "insert", "setdefault"}
+
+
+def _grown_locals(fn, m):
+    """locals of fn that start as an empty / literal container and are grown inside fn"""
+    born, grown = set(), set()
+    for n in m.nodes(fn):
+        if isinstance(n, ast.Assign) and len(n.targets) == 1 and isinstance(n.targets[0], ast.Name):
+            v = n.value
+            if isinstance(v, (ast.Set, ast.Dict, ast.List, ast.SetComp, ast.DictComp, ast.ListComp)) or (
+                    isinstance(v, ast.Call) and isinstance(v.func, ast.Name) and v.func.id in ("set", "dict", "list", "frozenset")):
+                born.add(n.targets[0].id)
+        if isinstance(n, ast.Call) and isinstance(n.func, ast.Attribute) and n.func.attr in _GROW \
+                and isinstance(n.func.value, ast.Name):
+            grown.add(n.func.value.id)
+        if isinstance(n, ast.Subscript) and isinstance(n.ctx, ast.Store) and isinstance(n.value, ast.Name):
+            grown.add(n.value.id)
+        if isinstance(n, ast.AugAssign) and isinstance(n.target, ast.Name):
+            grown.add(n.target.id)
+    return born & grown
+
+
+def rule_expand_total(res, cx):
+    res.rule("R-EXPAND-TOTAL", "the validator's duplicate-attribute rule is checked on the group expansion "
+             "(Schema.expanded_attrs and what it calls), so the expansion must yield one entry per `use` path: no decision "
+             "in it is a membership test against a container the same function grows while expanding (a visited set "
+             "de-duplicates: the second copy of an attribute reached along two `use` paths would never be seen) unless the "
+             "arm taken on a hit raises; acyclicity is the validator's job (_check_group_cycle runs first)", floor=2)
+    m = cx.m
+    fns = [f for f in P.closure([m.func("Schema.expanded_attrs")]) if f.mod is m]
+    expanding = [f for f in fns if any(isinstance(n, ast.Call) and isinstance(n.func, ast.Name) and n.func.id == "isinstance"
+                                       and len(n.args) == 2 and "Use" in P.text(n.args[1]) for n in m.nodes(f))]
+    if not expanding:
+        raise AnalysisError("anchor vanished: no function reachable from Schema.expanded_attrs tests isinstance(.., Use)")
+    for fn in expanding:
+        grown = _grown_locals(fn, m)
+        # a container handed in by the caller and grown here is shared expansion state as well
+        for n in m.nodes(fn):
+            if isinstance(n, ast.Call) and isinstance(n.func, ast.Attribute) and n.func.attr in ("add", "update") \
+                    and isinstance(n.func.value, ast.Name) and n.func.value.id in fn.params:
+                grown.add(n.func.value.id)
+        bad = False
+        for n in m.nodes(fn):
+            if not isinstance(n, ast.Compare):
+                continue
+            for op, c in zip(n.ops, n.comparators):
+                if isinstance(op, (ast.In, ast.NotIn)) and isinstance(c, ast.Name) and c.id in grown:
+                    # the arm taken when the item IS in the container
+                    st = n
+                    while st is not None and not isinstance(st, (ast.If, ast.IfExp, ast.comprehension, ast.While, ast.Assert)):
+                        st = getattr(st, "_parent", None)
+                    hit_raises = False
+                    if isinstance(st, ast.If) and st.test is n:
+                        arm = st.body if isinstance(op, ast.In) else st.orelse
+                        hit_raises = bool(arm) and P._always(arm, fn, cx.noret, raise_only=True)
+                    elif isinstance(st, ast.Assert):
+                        hit_raises = isinstance(op, ast.NotIn)
+                    if hit_raises:
+                        continue
+                    bad = True
+                    res.bad("R-EXPAND-TOTAL", f"{fn.qual}:{c.id}:membership-decides-expansion", m.rel, n.lineno,
+                            f"`{P.text(n)}` decides what the expansion does, and `{c.id}` is grown by {fn.qual} itself while it "
+                            "expands: a group reached a second time (two `use` paths to one base group, or `use` of the same "
+                            "group twice) is skipped, so the duplicate-attribute rule of _validate, which runs over this "
+                            "expansion, accepts a schema with duplicate attributes after group expansion and expanded_attrs() "
+                            "is no longer the expansion")
+        if not bad:
+            res.ok("R-EXPAND-TOTAL", f"{fn.qual}:no-dedup", {"file": m.rel, "line": fn.node.lineno,
+                                                              "grown_locals": sorted(grown)})
+    # the duplicate rule really consumes the expansion
+    val = m.func("_validate")
+    users = [f for f in P.closure([val]) if any(isinstance(n, ast.Call) and isinstance(n.func, ast.Attribute)
+                                               and n.func.attr == "expanded_attrs" for n in m.nodes(f))]
+    if users:
+        res.ok("R-EXPAND-TOTAL", "_validate:consumes-expanded_attrs", {"file": m.rel, "functions": sorted(f.qual for f in users)})
+    else:
+        res.bad("R-EXPAND-TOTAL", "_validate:consumes-expanded_attrs", m.rel, val.node.lineno,
+                "nothing reachable from _validate calls expanded_attrs: the duplicate-attribute rule is not checked on the expansion")
 
 
 # ============================================================================ self-test (thorough tier)
